@@ -116,6 +116,25 @@ impl<T: Read> Input for ReadInputSource<T> {
             .map(|s| s.trim().to_owned())
     }
 
+    fn input_number(&mut self) -> std::io::Result<String> {
+        if self.eof()? {
+            return Err(std::io::Error::from(ErrorKind::UnexpectedEof));
+        }
+
+        // skip leading whitespace
+        self.skip_while(|ch| ch == ' ')?;
+        // the number ends at a blank, a comma or the end of the line
+        let number = self.skip_while(|ch| ch != ' ' && ch != ',' && !is_cr_lf(ch))?;
+        // skip the blanks after it and then the delimiter, if there is one
+        self.skip_while(|ch| ch == ' ')?;
+        if let Some(ch) = self.peek()?
+            && (ch as char == ',' || is_cr_lf(ch as char))
+        {
+            self.read_until(|ch| ch == ',' || is_cr_lf(ch))?;
+        }
+        Ok(number)
+    }
+
     fn line_input(&mut self) -> std::io::Result<String> {
         if self.eof()? {
             return Err(std::io::Error::from(ErrorKind::UnexpectedEof));
